@@ -16,7 +16,7 @@ variable {V : Type}
 
 /-! ## dicts -/
 
-theorem dGet_dSet_self {κ α : Type} [DecidableEq κ] (d : List (κ × α)) (k : κ) (v : α) :
+theorem dGet_dSet_same {κ α : Type} [DecidableEq κ] (d : List (κ × α)) (k : κ) (v : α) :
     dGet (dSet d k v) k = some v := by
   induction d with
   | nil => simp [dSet, dGet]
@@ -286,7 +286,7 @@ theorem Inv.extend {I : Interp V} {kw : Kw V} {ids : Ids} {env : List V} (inv : 
   · intro n i hn
     by_cases hne : Node.fn e = n
     · subst hne
-      rw [dGet_dSet_self] at hn
+      rw [dGet_dSet_same] at hn
       cases hn
       exact ⟨e, v, rfl, hev, by rw [inv.len]; simp⟩
     · rw [dGet_dSet_ne _ _ _ _ hne] at hn
@@ -432,12 +432,12 @@ theorem collectOps_sound (I : Interp V) (kw : Kw V) (env1 : List V) :
             intro n hn; rw [hids' n hn]; exact hn
           obtain ⟨ids', ops', env', h1, h2, h3, hm, hc, h4⟩ :=
             ih (dSet ids (.fn e) ids.length) (ops ++ [(tag, is)]) (env ++ [v])
-              (hdeps_rest _ hmono (fun _ _ => by rw [dGet_dSet_self]; rfl))
+              (hdeps_rest _ hmono (fun _ _ => by rw [dGet_dSet_same]; rfl))
               (fun n hn hl => hmono n (hleaf n (by simp [hn]) hl)) inv' hrun'
           refine ⟨ids', ops', env', h1, h2, h3, fun n hn => hm n (hmono n hn), ?_, ?_⟩
           · intro e' he'
             rcases List.mem_cons.mp he' with he' | he'
-            · rw [he']; exact hm _ (by rw [dGet_dSet_self]; rfl)
+            · rw [he']; exact hm _ (by rw [dGet_dSet_same]; rfl)
             · exact hc e' he'
           by_cases hne : rest = []
           · subst hne
@@ -579,10 +579,10 @@ theorem collectConsts_spec (I : Interp V) (kw : Kw V) : ∀ (todo : List Node) (
         · rintro (h | ⟨h, k', hk⟩)
           · left
             by_cases hne : Node.fn (.const k) = n
-            · subst hne; rw [dGet_dSet_self]; rfl
+            · subst hne; rw [dGet_dSet_same]; rfl
             · rw [dGet_dSet_ne _ _ _ _ hne]; exact h
           · rcases List.mem_cons.mp h with h | h
-            · left; rw [h, dGet_dSet_self]; rfl
+            · left; rw [h, dGet_dSet_same]; rfl
             · exact Or.inr ⟨h, k', hk⟩
 
 theorem collectInputs_spec (I : Interp V) (kw : Kw V) : ∀ (ns : List String) (ids : Ids) (env vs : List V),
@@ -624,10 +624,10 @@ theorem collectInputs_spec (I : Interp V) (kw : Kw V) : ∀ (ns : List String) (
       · rintro (h | ⟨s', hs', hn⟩)
         · left
           by_cases hne : Node.fn (.var s) = n
-          · subst hne; rw [dGet_dSet_self]; rfl
+          · subst hne; rw [dGet_dSet_same]; rfl
           · rw [dGet_dSet_ne _ _ _ _ hne]; exact h
         · rcases List.mem_cons.mp hs' with h | h
-          · left; rw [hn, h, dGet_dSet_self]; rfl
+          · left; rw [hn, h, dGet_dSet_same]; rfl
           · exact Or.inr ⟨s', h, hn⟩
 
 /-! ## orderings -/
@@ -705,10 +705,7 @@ theorem not_mem_dropLast_of_nodup {α : Type} {l : List α} {a : α} (hnd : l.No
 
 /-! ## main theorem -/
 
-/-- **C18, compiler.**  For every duplicate-free, topological, complete ordering `ord` of the DAG of
-    `e` (ANY such ordering, not only the one `interpreter.anf` returns), every enumeration `inputs`
-    of the variables of `e` and every keyword binding `kw` of exactly those names:
-    `compile_funsor` succeeds and the program, run on `kw`, returns the value of `e` under `kw`. -/
+/-- Core of the compiler theorem, exposing the final `ids` dict and the invariant. -/
 theorem compile_run_core (I : Interp V) (ord : List Node) (e : Expr) (inputs : List String)
     (kw : Kw V) (hnd : ord.Nodup) (htop : Topological ord) (hcomp : Complete ord e)
     (hin : inputs.Nodup) (hvars : ∀ s, s ∈ inputs ↔ .fn (.var s) ∈ ord) (hkw : KwMatches kw inputs) :
@@ -824,5 +821,128 @@ theorem run_compile_eq_eval (I : Interp V) (ord : List Node) (e : Expr) (inputs 
   obtain ⟨cs, ops, ids, env, v, h1, _, _, h4, h5⟩ :=
     compile_run_core I ord e inputs kw hnd htop hcomp hin hvars hkw
   exact ⟨⟨cs, inputs, ops⟩, v, by simp [compileWith, h1], h4, h5⟩
+
+/-! ## missing / unexpected inputs are rejected -/
+
+theorem readInputs_missing : ∀ (ns : List String) (kw : Kw V) (env : List V) (n : String),
+    n ∈ ns → n ∉ kwKeys kw → ∃ m, readInputs ns kw env = .error (.missing m) := by
+  intro ns
+  induction ns with
+  | nil => intro _ _ n hn; simp at hn
+  | cons m ns ih =>
+    intro kw env n hn hmiss
+    cases hm : kwGet kw m with
+    | none => exact ⟨m, by simp [readInputs, hm]⟩
+    | some v =>
+      have hne : n ≠ m := by
+        intro e; subst e
+        exact hmiss ((kwGet_isSome_iff kw n).mp (by rw [hm]; rfl))
+      have hn' : n ∈ ns := by
+        rcases List.mem_cons.mp hn with h | h
+        · exact absurd h hne
+        · exact h
+      obtain ⟨m', hm'⟩ := ih (kwErase kw m) (env ++ [v]) n hn'
+        (fun h => hmiss (kwKeys_kwErase_sub kw m n h))
+      exact ⟨m', by simp [readInputs, hm, hm']⟩
+
+theorem readInputs_error : ∀ (ns : List String) (kw : Kw V) (env : List V) (er : Err),
+    readInputs ns kw env = .error er → ∃ m, er = .missing m := by
+  intro ns
+  induction ns with
+  | nil => intro kw env er h; simp [readInputs] at h
+  | cons m ns ih =>
+    intro kw env er h
+    cases hm : kwGet kw m with
+    | none => simp [readInputs, hm] at h; exact ⟨m, h.symm⟩
+    | some v => simp only [readInputs, hm] at h; exact ih _ _ _ h
+
+theorem readInputs_leftover : ∀ (ns : List String) (kw : Kw V) (env env' : List V) (rest : Kw V),
+    readInputs ns kw env = .ok (env', rest) → ∀ k ∈ kwKeys kw, k ∉ ns → k ∈ kwKeys rest := by
+  intro ns
+  induction ns with
+  | nil => intro kw env env' rest h k hk _; simp [readInputs] at h; rw [← h.2]; exact hk
+  | cons m ns ih =>
+    intro kw env env' rest h k hk hnot
+    cases hm : kwGet kw m with
+    | none => simp [readInputs, hm] at h
+    | some v =>
+      simp only [readInputs, hm] at h
+      simp only [List.mem_cons, not_or] at hnot
+      exact ih _ _ _ _ h k (kwKeys_kwErase_mem kw m k hk hnot.1) hnot.2
+
+/-- **Missing inputs are rejected**: if a program input has no binding, `OpProgram.__call__` raises
+    `ValueError("Missing kwarg")` — whatever else the program contains; no operation runs. -/
+theorem missing_input_rejected (I : Interp V) (p : Prog) (kw : Kw V) (n : String)
+    (hn : n ∈ p.inputs) (hmiss : n ∉ kwKeys kw) : ∃ m, run I p kw = .error (.missing m) := by
+  obtain ⟨m, hm⟩ := readInputs_missing p.inputs kw (p.constants.map I.const) n hn hmiss
+  exact ⟨m, by simp [run, hm]⟩
+
+/-- **Unexpected inputs are rejected**: a binding whose name is not a program input makes the call
+    raise (`Unrecognized kwargs`, unless an input is missing as well, which is reported first). -/
+theorem extra_input_rejected (I : Interp V) (p : Prog) (kw : Kw V) (k : String)
+    (hk : k ∈ kwKeys kw) (hnot : k ∉ p.inputs) :
+    (∃ m, run I p kw = .error (.missing m)) ∨
+    (∃ ks, k ∈ ks ∧ run I p kw = .error (.unrecognized ks)) := by
+  cases h : readInputs p.inputs kw (p.constants.map I.const) with
+  | error er =>
+    obtain ⟨m, rfl⟩ := readInputs_error _ _ _ _ h
+    exact Or.inl ⟨m, by simp [run, h]⟩
+  | ok r =>
+    obtain ⟨env, rest⟩ := r
+    have hmem := readInputs_leftover _ _ _ _ _ h k hk hnot
+    have hne : rest ≠ [] := by intro e; subst e; simp [kwKeys] at hmem
+    exact Or.inr ⟨kwKeys rest, hmem, by simp [run, h, hne]⟩
+
+/-! ## program ids are a bijection onto the environment slots -/
+
+/-- The ids handed out by `compile_funsor` are exactly `0 … N-1`, in order of assignment, where `N` is
+    the number of environment slots of the program (one per constant, input and operation), and only
+    funsor nodes receive one.  This is the lemma the numbering before commit 6850cf7 violated. -/
+theorem compile_ids_bijective (ord : List Node) (e : Expr) (inputs : List String)
+    (hnd : ord.Nodup) (htop : Topological ord) (hcomp : Complete ord e)
+    (hin : inputs.Nodup) (hvars : ∀ s, s ∈ inputs ↔ .fn (.var s) ∈ ord) :
+    ∃ p ids, compileIds false ord inputs = .ok (p, ids) ∧
+      ids.map (·.2) = List.range (p.constants.length + p.inputs.length + p.operations.length) ∧
+      (∀ n i, dGet ids n = some i → ∃ e', n = .fn e') := by
+  -- run the core argument with a trivial interpretation and the all-unit binding
+  let I : Interp Unit := ⟨fun _ => (), fun _ _ => (), fun _ _ _ => (), fun _ => ()⟩
+  have hkw : KwMatches (inputs.map (fun n => (n, ()))) inputs := by
+    constructor
+    · simpa [kwKeys, List.map_map, Function.comp_def] using hin
+    · intro n; simp [kwKeys, List.map_map, Function.comp_def]
+  obtain ⟨cs, ops, ids, env, v, h1, inv, hlen, _, _⟩ :=
+    compile_run_core I ord e inputs _ hnd htop hcomp hin hvars hkw
+  refine ⟨⟨cs, inputs, ops⟩, ids, h1, ?_, ?_⟩
+  · rw [inv.rng, inv.len, hlen]
+  · intro n i hn
+    obtain ⟨e', _, he, _, _⟩ := inv.val n i hn
+    exact ⟨e', he⟩
+
+/-- The nested tuple `Tuple((Tuple((x,)),))`. -/
+def nestedTuple : Expr := .tuple (.cons (.tuple (.cons (.var "x") .nil)) .nil)
+
+def nestedOrd : List Node :=
+  [.fn (.var "x"), .raw (.cons (.var "x") .nil), .fn (.tuple (.cons (.var "x") .nil)),
+   .raw (.cons (.tuple (.cons (.var "x") .nil)) .nil), .fn nestedTuple]
+
+/-- **Witness of the defect fixed by 6850cf7.**  With the old order of the two statements a raw tuple
+    node consumed an id: on the nested tuple the ids are `0..4` for a program with only 3 slots (no
+    bijection), the outer `make_tuple` reads slot 2 before it exists, and the run raises `IndexError`;
+    the current numbering gives ids `0..2` and the right value. -/
+theorem prefix_numbering_witness :
+    anf (.fn nestedTuple) = some nestedOrd ∧
+    (∃ p ids, compileIds true nestedOrd ["x"] = .ok (p, ids) ∧
+      ids.map (·.2) = [0, 1, 2, 3, 4] ∧
+      p.constants.length + p.inputs.length + p.operations.length = 3 ∧
+      p.operations = [(.mkTuple, [0]), (.mkTuple, [2])]) ∧
+    (∃ p ids, compileIds false nestedOrd ["x"] = .ok (p, ids) ∧
+      ids.map (·.2) = [0, 1, 2] ∧ p.operations = [(.mkTuple, [0]), (.mkTuple, [1])]) := by
+  refine ⟨by decide, ⟨_, _, rfl, by decide, by decide, by decide⟩, ⟨_, _, rfl, by decide, by decide⟩⟩
+
+theorem prefix_numbering_run_fails (I : Interp V) (v : V) :
+    compileWithPreFix nestedOrd ["x"] = .ok ⟨[], ["x"], [(.mkTuple, [0]), (.mkTuple, [2])]⟩ ∧
+    run I ⟨[], ["x"], [(.mkTuple, [0]), (.mkTuple, [2])]⟩ [("x", v)] = .error (.index 2) := by
+  refine ⟨rfl, ?_⟩
+  simp [run, readInputs, kwGet, kwErase, runOps, getArgs, applyOp]
 
 end FV.Props.C18
